@@ -711,14 +711,14 @@ Qed.
 Lemma run_from_inv c s0 inputs script :
   (forall i, Clean (w s0 i)) ->
   let '(o, s') := run_from c s0 inputs script in
-  o = ReturnNone \/ (Inv c inputs [] s' /\ good_end c s' o).
+  Inv c inputs [] s' /\ good_end c s' o.
 Proof.
-  intros Hc. unfold run_from. destruct (negb (any_open c s0)); [now left|].
+  intros Hc. unfold run_from.
   pose proof (first_enqueue_inv c inputs (fuel_of c) (S (extra c)) _ (reset_inv c s0 inputs Hc)) as H.
   destruct (first_enqueue c (fuel_of c) (reset c s0 inputs) (S (extra c))) as [s1|o]; cbn [okR' okR] in H.
   - pose proof (main_loop_inv c inputs (fuel_of c) script s1 H) as M.
-    destruct (main_loop c (fuel_of c) s1 script) as [o s']. now right.
-  - right. split; [now apply reset_inv|]. unfold good_end. auto.
+    destruct (main_loop c (fuel_of c) s1 script) as [o s']. exact M.
+  - split; [now apply reset_inv|]. unfold good_end. auto.
 Qed.
 
 Lemma fresh_clean pc i : Clean (w (fresh pc) i).
@@ -753,13 +753,13 @@ Qed.
 (* ---------- the theorems about [run] ---------- *)
 Lemma run_cases c pc pre inputs script :
   let o := run c pc pre inputs script in
-  o = ReturnNone \/ exists s', Inv c inputs [] s' /\ good_end c s' o.
+  exists s', Inv c inputs [] s' /\ good_end c s' o.
 Proof.
   cbn zeta. unfold run.
   pose proof (run_from_inv c (fold_left (env_step c) pre (fresh pc)) inputs script
                 (pre_clean c pre _ (fresh_clean pc))) as H.
   destruct (run_from c (fold_left (env_step c) pre (fresh pc)) inputs script) as [o s'].
-  cbn [fst]. destruct H as [H|H]; [now left|right; eauto].
+  cbn [fst]. eauto.
 Qed.
 
 Lemma finish_cases c s :
@@ -769,7 +769,7 @@ Proof. unfold finish. destruct (_ && _ && _); [destruct (return_results c)|]; ea
 Theorem run_no_internal_error c pc pre inputs script :
   run c pc pre inputs script <> Internal EIndex.
 Proof.
-  destruct (run_cases c pc pre inputs script) as [E|[s' [I [E|[E|[E|E]]]]]]; rewrite E; try discriminate.
+  destruct (run_cases c pc pre inputs script) as [s' [I [E|[E|[E|E]]]]]; rewrite E; try discriminate.
   destruct (finish_cases c s') as [[r ->]|[->|[p ->]]]; discriminate.
 Qed.
 
@@ -832,7 +832,6 @@ Theorem run_oracle_only_when_strict c pc pre inputs script :
   strict c = false -> run c pc pre inputs script <> Internal EOracle.
 Proof.
   intros Hs. unfold run, run_from.
-  destruct (negb (any_open c _)); [discriminate|].
   destruct (first_enqueue c (fuel_of c) _ (S (extra c))) as [s1|o] eqn:E.
   - now apply main_loop_no_oracle.
   - cbn [fst]. intros ->.
@@ -845,7 +844,7 @@ Theorem run_return_exactly_once c pc pre inputs script r :
   retry c = true -> run c pc pre inputs script = Return r -> Permutation r (map (f c) inputs).
 Proof.
   intros Hr E.
-  destruct (run_cases c pc pre inputs script) as [E'|[s' [I [E'|[E'|[E'|E']]]]]]; rewrite E in E'; try discriminate.
+  destruct (run_cases c pc pre inputs script) as [s' [I [E'|[E'|[E'|E']]]]]; rewrite E in E'; try discriminate.
   symmetry in E'. destruct (finish_return c inputs s' r I E') as [_ [-> C]].
   apply Permutation_map. apply Permutation_sym. rewrite (Permutation_count_occ Z.eq_dec).
   intros x. rewrite (C x), (inv_lost _ _ _ _ I Hr). simpl. lia.
@@ -857,7 +856,7 @@ Theorem run_partial_genuine c pc pre inputs script p :
   exists l, p = (if return_results c then map (f c) l else []) /\ forall x, (cnt l x <= cnt inputs x)%nat.
 Proof.
   intros E.
-  destruct (run_cases c pc pre inputs script) as [E'|[s' [I [E'|[E'|[E'|E']]]]]]; rewrite E in E'; try discriminate.
+  destruct (run_cases c pc pre inputs script) as [s' [I [E'|[E'|[E'|E']]]]]; rewrite E in E'; try discriminate.
   unfold finish in E'. destruct (_ && _ && _); [destruct (return_results c); discriminate|].
   inversion E'. subst. exists (ret_in s'). split.
   - destruct (return_results c) eqn:Hr; [apply (inv_ret _ _ _ _ I Hr)|apply (inv_ret_off _ _ _ _ I Hr)].
@@ -869,6 +868,6 @@ Theorem run_return_no_retry c pc pre inputs script r :
   exists l lost_, r = map (f c) l /\ forall x, cnt inputs x = (cnt l x + cnt lost_ x)%nat.
 Proof.
   intros E.
-  destruct (run_cases c pc pre inputs script) as [E'|[s' [I [E'|[E'|[E'|E']]]]]]; rewrite E in E'; try discriminate.
+  destruct (run_cases c pc pre inputs script) as [s' [I [E'|[E'|[E'|E']]]]]; rewrite E in E'; try discriminate.
   symmetry in E'. destruct (finish_return c inputs s' r I E') as [_ [-> C]]. eauto.
 Qed.
